@@ -11,6 +11,8 @@ CONSTANTS
   MaxDup = 1
   MaxResend = 2
   ChanCap = 4
+  MaxInject = 0
+  InjSeqs = {}
 SPECIFICATION Spec
 INVARIANTS TypeOK WindowBound Outstanding AddOnlyWithRoom PrefixDelivery Unwrapped
 CHECK_DEADLOCK FALSE
